@@ -762,6 +762,116 @@ pub fn run_part(id: &str, part: &Part, seed: u64, deciding_total: bool) -> PartO
     out
 }
 
+/// E4: which coverage-guided fuzz target (cargo-fuzz / libFuzzer, ASan) serves a property
+pub fn fuzz_target_of(id: &str) -> Option<&'static str> {
+    match id {
+        "C01" | "C02" | "C03" | "C04" | "C05" | "C06" | "C07" | "C09" | "C10" | "C11" | "C12" | "C13" => Some("sched"),
+        "C14" => Some("seqmodel"),
+        "C15" => Some("kinds"),
+        "C16" | "C17" => Some("cache_access"),
+        "C20" => Some("serde_rt"),
+        _ => None,
+    }
+}
+
+#[derive(Default, Debug)]
+pub struct FuzzOut {
+    pub available: bool,
+    pub note: String,
+    pub runs: usize,
+    pub corpus_units: usize,
+    pub coverage: usize,
+    pub violations: Vec<String>,
+    pub jobs: usize,
+}
+
+/// Build the target with cargo-fuzz (nightly, ASan, hooks on) and run `jobs` libFuzzer processes
+/// with fixed run counts and seeds. The semantic oracles are inside the target.
+pub fn fuzz_campaign(target: &str, runs_per_job: usize, jobs: usize, seed: u64) -> FuzzOut {
+    let mut out = FuzzOut { jobs, ..Default::default() };
+    let b = std::process::Command::new("cargo")
+        .args(["+nightly", "fuzz", "build", "--fuzz-dir", &format!("{}/fuzz", VERIF), target])
+        .env("RUSTFLAGS", "--cfg arc_swap_verif")
+        .env("CARGO_NET_OFFLINE", "true")
+        .current_dir(VERIF)
+        .output();
+    let ok = matches!(&b, Ok(o) if o.status.success());
+    if !ok {
+        out.note = format!("cargo fuzz build failed: {}", b.map(|o| String::from_utf8_lossy(&o.stderr).lines().rev().take(3).collect::<Vec<_>>().join(" | ")).unwrap_or_else(|e| e.to_string()));
+        return out;
+    }
+    let bin = format!("{}/fuzz/target/x86_64-unknown-linux-gnu/release/{}", VERIF, target);
+    if !Path::new(&bin).exists() {
+        out.note = "fuzz binary not found after build".into();
+        return out;
+    }
+    out.available = true;
+    let art = format!("{}/work/artifacts", VERIF);
+    let _ = std::fs::create_dir_all(&art);
+    let mut children = Vec::new();
+    for j in 0..jobs {
+        let corpus = format!("{}/work/corpus/{}/j{}", VERIF, target, j);
+        let _ = std::fs::remove_dir_all(&corpus);
+        std::fs::create_dir_all(&corpus).unwrap();
+        // seed corpus: the empty input and a few pseudo-random byte strings (libFuzzer ramps the
+        // length slowly from an empty corpus)
+        let mut x = seed.wrapping_mul(6364136223846793005).wrapping_add(j as u64 + 1);
+        for k in 0..8 {
+            let len = 32 + 48 * k;
+            let bytes: Vec<u8> = (0..len)
+                .map(|_| {
+                    x = x.wrapping_mul(6364136223846793005).wrapping_add(1442695040888963407);
+                    (x >> 33) as u8
+                })
+                .collect();
+            std::fs::write(format!("{}/seed{}", corpus, k), bytes).unwrap();
+        }
+        std::fs::write(format!("{}/empty", corpus), b"").unwrap();
+        let log = std::fs::File::create(format!("{}/work/fuzz-{}-j{}.log", VERIF, target, j)).unwrap();
+        let log2 = log.try_clone().unwrap();
+        let ch = std::process::Command::new(&bin)
+            .arg(&corpus)
+            .args([&format!("-runs={}", runs_per_job), &format!("-seed={}", (seed % 1_000_000) as usize * 100 + j + 1), "-len_control=0", "-max_len=512", "-timeout=60", "-print_final_stats=1", &format!("-artifact_prefix={}/{}-j{}-", art, target, j)])
+            .env("VCHECK_QUIET", "1")
+            .stdout(log)
+            .stderr(log2)
+            .spawn();
+        if let Ok(c) = ch {
+            children.push((j, c, corpus));
+        }
+    }
+    for (j, mut c, corpus) in children {
+        let st = c.wait().ok();
+        let text = std::fs::read_to_string(format!("{}/work/fuzz-{}-j{}.log", VERIF, target, j)).unwrap_or_default();
+        for l in text.lines() {
+            if let Some(r) = l.strip_prefix("stat::number_of_executed_units:") {
+                out.runs += r.trim().parse::<usize>().unwrap_or(0);
+            }
+            if l.starts_with("VIOLATION") || l.starts_with("oracle ") {
+                out.violations.push(l.to_string());
+            }
+            if let Some(i) = l.find(" cov: ") {
+                let c: usize = l[i + 6..].split_whitespace().next().and_then(|x| x.parse().ok()).unwrap_or(0);
+                out.coverage = out.coverage.max(c);
+            }
+        }
+        out.corpus_units += std::fs::read_dir(&corpus).map(|d| d.count()).unwrap_or(0);
+        let crashed = st.map(|s| !s.success()).unwrap_or(true);
+        if crashed && !text.contains("VIOLATION") {
+            // a crash that is not one of our oracles (sanitizer report, abort inside the crate)
+            let artifact = text.lines().find_map(|l| l.find("Test unit written to ").map(|i| l[i + 21..].trim().to_string())).unwrap_or_default();
+            let why = text.lines().find(|l| l.contains("ERROR: AddressSanitizer") || l.contains("panicked at") || l.contains("deadly signal")).unwrap_or("crash").to_string();
+            if text.contains("libFuzzer: timeout") || text.contains("out-of-memory") {
+                out.note = format!("job {} hit a libFuzzer timeout/oom: inconclusive", j);
+            } else {
+                out.violations.push(format!("oracle sanitizer/abort : {}", why));
+                out.violations.push(format!("VIOLATION property=? replay={}", artifact));
+            }
+        }
+    }
+    out
+}
+
 pub fn parent(id: &str, tier: &str) -> i32 {
     let t0 = Instant::now();
     let seed = default_seed();
@@ -829,6 +939,33 @@ pub fn parent(id: &str, tier: &str) -> i32 {
         );
         if o.violations > 0 {
             break;
+        }
+    }
+    // E4: coverage-guided campaign (thorough tier only), oracles inside the target
+    if thorough && violations == 0 {
+        if let Some(target) = fuzz_target_of(id) {
+            let (runs, jobs) = if target == "sched" { (40_000, 16) } else { (400_000, 8) };
+            let runs = std::env::var("VCHECK_FUZZ_RUNS").ok().and_then(|s| s.parse().ok()).unwrap_or(runs);
+            let f = fuzz_campaign(target, runs, jobs, seed);
+            if f.available {
+                evaluations += f.runs;
+                for v in &f.violations {
+                    if v.starts_with("VIOLATION property=?") {
+                        println!("{}", v.replace("property=?", &format!("property={}", id)));
+                        violations += 1;
+                    } else {
+                        println!("{}", v);
+                        if v.starts_with("VIOLATION") {
+                            violations += 1;
+                        }
+                    }
+                }
+                if !f.note.is_empty() {
+                    inconclusive = true;
+                }
+                rules.push(format!("[E4 {}] libFuzzer (cargo-fuzz, nightly, ASan) on bytes decoded constructively into the same case types; {} jobs x {} runs, seed corpus = empty input + 8 pseudo-random strings per job; the same oracles run inside the target", target, jobs, runs));
+            }
+            per_part.insert(format!("E4:{}", target), json!({"available": f.available, "note": f.note, "runs": f.runs, "jobs": f.jobs, "corpus_units_coverage_increasing": f.corpus_units, "edge_coverage": f.coverage, "violations": f.violations.len()}));
         }
     }
     let wall = t0.elapsed().as_secs_f64();
